@@ -974,3 +974,43 @@ def share(run: Run, rule: str, module, src_rules: Sequence[str], prefix: bool = 
     for e in sub.errors:
         if any(e.startswith(x) for x in src_rules):
             raise AnalysisError("model-mismatch", e)
+
+
+def taint_closure(fa: C.FuncAST, seeds: Iterable[str], passes: int = 4) -> set:
+    """Names of locals that (transitively) receive data from `seeds` inside one function: declarations whose initialiser mentions a
+    tainted name, assignments / compound assignments whose right side does, range-for bindings over a tainted range, and containers
+    that receive a tainted argument through push_back / emplace_back / insert / set / append.  Flow-insensitive, intra-procedural
+    (a may-analysis: used for "does X reach Y at all" obligations, where the absence of flow is the finding)."""
+    tainted = set(seeds)
+    mentions = lambda node: node is not None and any(isinstance(x, C.Id) and x.name.split("::")[0] in tainted for x in node.walk())
+
+    def root_name(e):
+        while isinstance(e, (C.Member, C.Index, C.Call)):
+            e = e.obj if isinstance(e, (C.Member, C.Index)) else e.fn
+        if isinstance(e, C.Unary):
+            return root_name(e.e)
+        return e.name if isinstance(e, C.Id) else None
+    for _ in range(passes):
+        before = len(tainted)
+        for n in fa.body.walk():
+            if isinstance(n, C.Declarator) and n.init is not None and mentions(n.init):
+                if n.name:
+                    tainted.add(n.name)
+                for b in (n.bindings or []):
+                    tainted.add(b)
+            elif isinstance(n, C.RangeFor) and mentions(n.range):
+                for nm in (n.names or []):
+                    if nm:
+                        tainted.add(nm)
+            elif isinstance(n, C.Binary) and n.op in ("=", "+=", "|=") and mentions(n.r):
+                r = root_name(n.l)
+                if r:
+                    tainted.add(r)
+            elif isinstance(n, C.Call) and isinstance(n.fn, C.Member) and n.fn.name in ("push_back", "emplace_back", "insert", "set", "append", "emplace") \
+                    and any(mentions(a) for a in n.args):
+                r = root_name(n.fn.obj)
+                if r:
+                    tainted.add(r)
+        if len(tainted) == before:
+            break
+    return tainted
